@@ -185,9 +185,18 @@ def make_render_decisions(idx, renderer="git", lo=0, hi=64, colors=(0, 1), words
     return h, dict(reset=common.nbdime_reset, allow_render=True)
 
 
-def shards(tier, props, known):
+def shards(tier, props, known, lite=False):
     kw = dict(props=tuple(props), known=tuple(known))
     out = []
+    if lite and tier == "quick":
+        for t in ["codeA", "codeRes2", "mdAtt", "codeEmp", "codeMime", "codeJobj"]:
+            out.append(("make_render_diff", "rd-acts-git-%s-63" % t,
+                        dict(templates=(t,), renderer="git", lo=63, hi=64, colors=(0,), words=(0,),
+                             actions="ACTIONS_FULL", **kw)))
+        for i in range(0, len(fam_nbmerge.CONFLICT_SCRIPTS), 3):
+            out.append(("make_render_decisions", "rdec-%02d" % i,
+                        dict(idx=i, renderer="difflib", lo=63, hi=64, colors=(0,), **kw)))
+        return out
     singles = ["codeA", "codeRes2", "mdAtt", "codeDisp", "codeJobj", "codeErr"] if tier == "quick" \
         else fam_nbdiff.ALL_TEMPLATES
     # (a) every include subset x colour x renderer on a few scripts
